@@ -199,3 +199,24 @@ def stack_layer(seed: int, n_cases: int) -> Dict[str, Any]:
                 "sample": next((p["sample"] for p in parts if p["sample"]), None), "wall_s": round(time.time() - t0, 2)}
 
     return fw.cached("stack", {"seed": seed, "n": n_cases}, compute)
+
+
+def mech_layer(seed: int, n_cases: int) -> Dict[str, Any]:
+    """function-level mechatronics arithmetic (C04/C05)"""
+
+    def compute() -> Dict[str, Any]:
+        from . import mech
+
+        per = max(1, n_cases // N_WORKERS)
+        t0 = time.time()
+        with ProcessPoolExecutor(max_workers=N_WORKERS) as ex:
+            parts = list(ex.map(mech.worker, [(seed * 32452843 + i, per) for i in range(N_WORKERS)]))
+        shapes = set()
+        findings = []
+        for p in parts:
+            shapes.update(tuple(s) for s in p["shapes"])
+            findings += p["findings"]
+        return {"cases": sum(p["n"] for p in parts), "findings": findings[:40], "n_findings": sum(p["n_findings"] for p in parts),
+                "shapes": sorted(shapes, key=str), "sample": parts[0]["sample"], "wall_s": round(time.time() - t0, 2)}
+
+    return fw.cached("mech", {"seed": seed, "n": n_cases}, compute)
